@@ -88,7 +88,7 @@ static ps_priv_t *alloc_ps_msg(const ps_priv_t *msg, ev_src_t *sub) {
         memcpy(m, msg, sizeof(ps_priv_t));
         m->msg.sender = m_mem_ref((void *)m->msg.sender); // keep module alive until message is dispatched
         m->autofree = m_mem_ref(m->autofree); // keep autofree data alive until every recipient is done with it
-        m->sub = sub;
+        m->sub = m_mem_ref(sub); // keep subscription alive too: the module may unsubscribe before reading the message
     }
     return m;
 }
@@ -98,6 +98,7 @@ static void ps_msg_dtor(void *data) {
     
     /* Autofree data is released together with the last copy of the message */
     m_mem_unref(pubsub_msg->autofree);
+    m_mem_unref(pubsub_msg->sub);
     if (pubsub_msg->msg.sender) {
         m_mem_unref((void *)pubsub_msg->msg.sender);
     }
